@@ -611,7 +611,10 @@ def corr_const_repr(ctx, workdir):
                 obs = "None"
         dt = "OTHER" if tag == "NOTENSOR" else tag
         rows.append(f"({cbool(tag != 'NOTENSOR')}, {dt}, {clist(dims, cnat)}, {clist(payload, cz)}, {obs})")
-    ok, vals, raw = ctx.coq_eval(["OV.Export.ConstRepr"], f"Definition cases : list rcase := {clist(rows)}.\nEval vm_compute in (disagreeing_repr 0 cases).", name="constrepr")
+    from harness import c13_variants
+    vr = c13_variants.detect()
+    ok, vals, raw = ctx.coq_eval(["OV.Export.ConstRepr"], f"Definition cases : list rcase := {clist(rows)}.\n"
+                                 f"Eval vm_compute in (disagreeing_repr_fx {cbool(vr['finite_only'])} {cbool(vr['nonempty_only'])} 0 cases).", name="constrepr")
     if not ok or not vals:
         ctx.tie_broken("correspondence", "const_repr:model-evaluation", raw[-800:])
         return
@@ -619,7 +622,8 @@ def corr_const_repr(ctx, workdir):
     for i in bad[:10]:
         node, tag, dims, payload = samples[i]
         ctx.tie_broken("correspondence", "const_repr", f"_get_const_repr on {tag}{dims} {payload[:5]} printed {E._get_const_repr(node)!r}, model differs")
-    ctx.obligation(f"correspondence: real _get_const_repr = Export/ConstRepr.v `const_repr` on {len(samples)} Constant nodes", not bad)
+    ctx.obligation(f"correspondence: real _get_const_repr = Export/ConstRepr.v `const_repr_fx` (variant finite_only={vr['finite_only']}, "
+                   f"nonempty_only={vr['nonempty_only']}, decided by probe) on {len(samples)} Constant nodes", not bad)
 
     # re-entry: each distinct printed literal is compiled by the real converter; the Constant it builds has literal_dims / literal_dtype
     uniq = sorted({t for t in texts}, key=lambda t: (t[0], t[1]))[:60]
